@@ -1,10 +1,14 @@
 package verifharness
 
 import (
+	"context"
+	"encoding/json"
 	"fmt"
 	"os"
 	"strings"
 	"testing"
+
+	"github.com/gokrazy/rsync/rsynccmd"
 
 	"github.com/gokrazy/rsync/verifharness/core"
 	_ "github.com/gokrazy/rsync/verifharness/props"
@@ -15,6 +19,22 @@ import (
 // mode; VCHECK_ARGS carries the command line of ./run.
 func TestEntry(t *testing.T) {
 	core.T = t
+	if cli := os.Getenv("VCHECK_CLI"); cli != "" {
+		// act as the gokr-rsync command (cmd/gokr-rsync/rsync.go), with its default
+		// restrictions: used by checks that need the real command in its own process
+		var args []string
+		if err := json.Unmarshal([]byte(cli), &args); err != nil {
+			fmt.Fprintln(os.Stderr, err)
+			os.Exit(2)
+		}
+		cmd := rsynccmd.Command("gokr-rsync", args...)
+		cmd.Stdin, cmd.Stdout, cmd.Stderr = os.Stdin, os.Stdout, os.Stderr
+		if _, err := cmd.Run(context.Background()); err != nil {
+			fmt.Fprintln(os.Stderr, err)
+			os.Exit(1)
+		}
+		os.Exit(0)
+	}
 	if spec := os.Getenv("VCHECK_WORKER"); spec != "" {
 		core.WorkerMain(spec)
 		return
